@@ -32,10 +32,27 @@ type RuleResult struct {
 	Min         int // minimum number of obligations (vacuity guard)
 	Obligations []Obligation
 	Notes       []string
+	open        int
+	Dropped     int `json:"dropped,omitempty"`
 	Stats       map[string]int
 }
 
+// maxOpenPerRule bounds how many not-discharged obligations one rule records in detail: a change that
+// breaks a table breaks many of its cells, and the first few hundred say all there is to say.
+const maxOpenPerRule = 300
+
 func (r *RuleResult) Add(status, key, pos, detail string) {
+	if status != Discharged {
+		r.open++
+		if r.open == maxOpenPerRule+1 {
+			r.Obligations = append(r.Obligations, Obligation{Rule: r.Rule, Key: "overflow|" + r.Rule, Status: Undecided,
+				Detail: fmt.Sprintf("more than %d obligations of this rule are not discharged; the rest are counted, not listed", maxOpenPerRule)})
+		}
+		if r.open > maxOpenPerRule {
+			r.Dropped++
+			return
+		}
+	}
 	r.Obligations = append(r.Obligations, Obligation{Rule: r.Rule, Key: key, Status: status, Detail: detail, Pos: pos})
 }
 func (r *RuleResult) OK(key, pos, detail string)  { r.Add(Discharged, key, pos, detail) }
